@@ -312,12 +312,12 @@ def classify(harness_name, args):
 
 
 def _sh(tier):
-    # case split on the first scheduling choices (they are read whenever two processes are enabled)
-    out = []
-    for a in (0, 1):
-        for c in (0, 1):
-            out.append(("(schedule[0] == 0) == %r" % (a == 0), "(schedule[1] == 0) == %r" % (c == 0)))
-    return out
+    # case split on the first two scheduling choices (they are read whenever >= 2 processes are enabled)
+    if BOUNDS[tier]["procs"] == 2:
+        alts = ["schedule[%d] == 0", "schedule[%d] != 0"]
+    else:
+        alts = ["schedule[%d] == 0", "schedule[%d] == 1", "schedule[%d] != 0 and schedule[%d] != 1"]
+    return [(a.replace("%d", "0"), c.replace("%d", "1")) for a in alts for c in alts]
 
 
 HARNESSES = [
